@@ -18,11 +18,12 @@ Lemma leaf_kalman_update_ok k m :
   {| Rtt.kx := x; Rtt.kv := v; Rtt.kp0 := p0; Rtt.kp1 := p1; Rtt.kp2 := p2; Rtt.kp3 := p3; Rtt.kinit := i |}.
 Proof.
   destruct k as [x v p0 p1 p2 p3 i].
-  unfold Rtt.kalman_update, leaf_kalman_update, Rtt.f_is_nan, Rtt.f_is_inf; cbn [Rtt.kx Rtt.kv Rtt.kp0 Rtt.kp1 Rtt.kp2 Rtt.kp3 Rtt.kinit].
-  destruct (PrimFloat.is_nan m || PrimFloat.is_infinity m); [reflexivity|].
-  destruct i; cbn [negb]; [|reflexivity].
-  unfold Rtt.KALMAN_S_EPS; cbv zeta.
-  match goal with |- context [PrimFloat.ltb ?a ?b] => destruct (PrimFloat.ltb a b) end; reflexivity.
+  unfold Rtt.kalman_update, leaf_kalman_update, Rtt.f_is_nan, Rtt.f_is_inf, Rtt.KALMAN_S_EPS, PrimFloat.is_finite;
+    cbn [Rtt.kx Rtt.kv Rtt.kp0 Rtt.kp1 Rtt.kp2 Rtt.kp3 Rtt.kinit].
+  (* the non-finite guard may be written as is_nan || is_infinite or as !is_finite: split both tests *)
+  destruct (PrimFloat.is_nan m), (PrimFloat.is_infinity m); cbn [orb negb]; try reflexivity;
+  destruct i; cbn [negb]; try reflexivity;
+  cbv zeta; match goal with |- context [PrimFloat.ltb ?a ?b] => destruct (PrimFloat.ltb a b) end; reflexivity.
 Qed.
 
 Lemma leaf_kalman_reset_ok k :
@@ -37,8 +38,8 @@ Lemma leaf_ewma_update_ok alpha e m :
   Rtt.ewma_update alpha e m =
   let '(v, i) := leaf_ewma_update (Rtt.ev e) alpha (Rtt.einit e) m in {| Rtt.ev := v; Rtt.einit := i |}.
 Proof.
-  destruct e as [v i]. unfold Rtt.ewma_update, leaf_ewma_update, Rtt.f_is_nan, Rtt.f_is_inf; cbn [Rtt.ev Rtt.einit].
-  destruct (PrimFloat.is_nan m || PrimFloat.is_infinity m); [reflexivity|].
+  destruct e as [v i]. unfold Rtt.ewma_update, leaf_ewma_update, Rtt.f_is_nan, Rtt.f_is_inf, PrimFloat.is_finite; cbn [Rtt.ev Rtt.einit].
+  destruct (PrimFloat.is_nan m), (PrimFloat.is_infinity m); cbn [orb negb]; try reflexivity;
   destruct i; reflexivity.
 Qed.
 
